@@ -489,7 +489,7 @@ func objReuseCase(c *mon.Case, idx int, hid byte) {
 		}
 		s.u.dec.EncrypterOpts = s.o
 		var got []byte
-		if s.asn1 || s.ct[0] != 0x30 {
+		if s.asn1 || !ref.IsOneSequence(s.ct) { // (input that is exactly one DER SEQUENCE is specified to be read as ASN.1)
 			if c.Call("priv.Decrypt(reused DecrypterOptsWithUID)", func() { got, err = s.u.euk.Decrypt(nil, s.ct, s.u.dec) }) {
 				if err != nil {
 					c.Fail("reject", "objreuse: priv.Decrypt with a reused DecrypterOptsWithUID refuses an honest %v ciphertext: %v", s.m, err)
